@@ -167,13 +167,13 @@ def api_eg(d, args):
     import fairlearn.reductions as red
 
     kind = d["kind"]
-    eg = red.ExponentiatedGradient(ExactLearner("cells"), getattr(red, kind)(difference_bound=0.05), eps=d["eg_eps"], max_iter=d["eg_max_iter"], nu=d["eg_nu"],
-                                   run_linprog_step=d["eg_lp"])
+    eg = red.ExponentiatedGradient(ExactLearner("cells", output=args.get("_learner_output", "ndarray")), getattr(red, kind)(difference_bound=0.05),
+                                   eps=d["eg_eps"], max_iter=d["eg_max_iter"], nu=d["eg_nu"], run_linprog_step=d["eg_lp"])
     kw = {"sensitive_features": args["g"]}
     if args.get("c") is not None:
         kw["control_features"] = args["c"]
     eg.fit(args["X"], args["y"], **kw)
-    return {"weights_": canon(eg.weights_), "pmf": canon(np.asarray(eg._pmf_predict(d["X"]))), "best_gap_": canon(eg.best_gap_),
+    return {"weights_": canon(eg.weights_), "pmf": canon(np.asarray(eg._pmf_predict(args["X"]))), "best_gap_": canon(eg.best_gap_),
             "last_iter_": canon(eg.last_iter_), "best_iter_": canon(eg.best_iter_), "n_oracle_calls_": canon(eg.n_oracle_calls_),
             "convergence_threshold_nu_in_effect": canon(eg.nu),  # data-derived when nu=None was requested
             "lambda_vecs_": {(i, j): float(v) for j, col in enumerate(eg.lambda_vecs_.columns)
@@ -184,7 +184,7 @@ def api_grid(d, args):
     import fairlearn.reductions as red
 
     kind = d["kind"]
-    gs = red.GridSearch(ExactLearner("cells"), getattr(red, kind)(difference_bound=0.05), grid_size=7, grid_limit=2.0)
+    gs = red.GridSearch(ExactLearner("cells", output=args.get("_learner_output", "ndarray")), getattr(red, kind)(difference_bound=0.05), grid_size=7, grid_limit=2.0)
     kw = {"sensitive_features": args["g"]}
     if args.get("c") is not None:
         kw["control_features"] = args["c"]
@@ -192,7 +192,7 @@ def api_grid(d, args):
     order = sorted(gs.lambda_vecs_.index, key=repr)
     return {"lambda_vecs_": {(i, j): float(v) for j, col in enumerate(gs.lambda_vecs_.columns) for i, v in enumerate(gs.lambda_vecs_[col].reindex(order))},
             "gammas_": {(i, j): float(v) for j, col in enumerate(gs.gammas_.columns) for i, v in enumerate(gs.gammas_[col].reindex(order))},
-            "objectives_": canon(list(gs.objectives_)), "best_idx_": canon(gs.best_idx_), "predict": canon(np.asarray(gs.predict(d["X"])))}
+            "objectives_": canon(list(gs.objectives_)), "best_idx_": canon(gs.best_idx_), "predict": canon(np.asarray(gs.predict(args["X"])))}
 
 
 def api_threshold(d, args):
@@ -274,6 +274,10 @@ def build_args(rng, api, d, baseline):
         args[arg], h = wrap(rng, d[arg], kind, name={"g": "grp", "c": "ctl", "y": "lab", "p": "pred", "w": "wt"}[arg])
         hostile |= h
         kinds[arg] = kind
+    if api in ("eg", "grid") and not baseline and isinstance(args.get("X"), pd.DataFrame):
+        # a pandas-aware base estimator: predict() returns a Series indexed like the (hostile) input frame
+        args["_learner_output"] = gen.pick(rng, ["ndarray", "series_like_X", "series_like_X"])
+        kinds["estimator_output"] = args["_learner_output"]
     if api == "moments" and not baseline:
         # what the predictor callable returns: ndarray, (n,1) array, or a pandas Series with a non-default index
         args["_pred_container"] = gen.pick(rng, ["ndarray", "col", "series", "series_hostile", "series_hostile"])
